@@ -31,6 +31,31 @@ def do_compile(src):
                 'offset': getattr(e, 'offset', None)}
 
 
+class _Revive(ast.NodeTransformer):
+    """CPython <= 3.7 never compiles the body of `if <constant>:` / `while <constant>:` (nor the other branch), so its
+    acceptance says nothing about code in there.  Replace every test that could fold to a constant by a plain name."""
+    _LIVE = (ast.Name, ast.Attribute, ast.Call, ast.Subscript, ast.Lambda, ast.ListComp, ast.SetComp, ast.DictComp,
+             ast.GeneratorExp, ast.Await, ast.Yield, ast.YieldFrom, ast.Starred)
+
+    def _fix(self, node):
+        self.generic_visit(node)
+        if not any(isinstance(n, self._LIVE) for n in ast.walk(node.test)):
+            node.test = ast.copy_location(ast.Name(id='vf_live', ctx=ast.Load()), node.test)
+        return node
+    visit_If = _fix
+    visit_While = _fix
+
+
+def do_compile_live(src):
+    try:
+        tree = ast.parse(src, '<x>', 'exec')
+        tree = ast.fix_missing_locations(_Revive().visit(tree))
+        compile(tree, '<x>', 'exec', dont_inherit=True)
+        return {'ok': True}
+    except (SyntaxError, ValueError, OverflowError, RecursionError, MemoryError) as e:
+        return {'ok': False, 'error': type(e).__name__ + ': ' + str(e)[:200]}
+
+
 def do_detect(b):
     data = base64.b64decode(b)
     try:
@@ -62,6 +87,8 @@ def main():
                 res = do_tokenize(req['src'])
             elif op == 'compile':
                 res = do_compile(req['src'])
+            elif op == 'compile_live':
+                res = do_compile_live(req['src'])
             elif op == 'both':
                 res = do_compile(req['src'])
                 if res['ok']:
